@@ -302,6 +302,15 @@ Definition prog_ok (x : option (list Qc)) (y : list Qc) (e : option exn) (steps 
                 script = [dict(p_) for p_ in pre] + [{"op": "trend", "coef": [0, 1, 0.5], "normalized": False, "fn_kind": "array"}]
                 cases.append({"x": gens.sorted_x(rng, m, rng.choice(["uniform", "int", "dyadic"])), "y": [float(v) for v in rng.sample(range(-8, 9), m)],
                               "script": script, "seed": 1, "len": len(script), "pool": [], "as_list": False, "int_x": False, "x_none": False, "invalid": False})
+        if "integral_match" in pool:
+            # a matching while the working ordinates are still the array the caller handed in (ndarray input; nothing, or only
+            # operations on the abscissae / cuts, before it): the caller's array and the original stay what they were
+            for pre in ([], [{"op": "truncate_by_index", "start": 1, "stop": None}, {"op": "scale_x", "v": 2.0}, {"op": "shift_x", "v": 3.0}]):
+                for al_ in (1.0, 0.5):
+                    m = rng.randint(6, 9)
+                    script = [dict(p_) for p_ in pre if p_["op"] in pool] + [{"op": "integral_match", "rt": "trapezoid", "rr": "rectangle", "alpha": al_}]
+                    cases.append({"x": gens.sorted_x(rng, m, rng.choice(["uniform", "int", "dyadic"])), "y": [float(v) for v in rng.sample(range(-8, 9), m)],
+                                  "script": script, "seed": 1, "len": len(script), "pool": [], "as_list": False, "int_x": False, "x_none": False, "invalid": False})
         if "append" in pool:
             # the periodic flag given as a NumPy bool (y[0] != y[-1] on arrays) and as an integer
             for fk_ in ("np_bool", "int"):
